@@ -27,6 +27,18 @@ def exact(t0):
     return lambda t: np.array([math.cos(t - t0), -math.sin(t - t0)])
 
 
+def rhs_forced(t, y):
+    """non-autonomous (separable: q' = p, p' = -q + forcing(t)), closed-form solution below"""
+    return np.array([y[1], -y[0] + 0.3 * math.cos(3.0 * float(t))])
+
+
+def exact_forced(t0):
+    yp = lambda t: -0.0375 * math.cos(3.0 * t)          # particular solution of y'' + y = 0.3 cos 3t
+    dyp = lambda t: 0.1125 * math.sin(3.0 * t)
+    A, B = 1.0 - yp(t0), -dyp(t0)                        # y(t0) = 1, y'(t0) = 0
+    return lambda t: np.array([A * math.cos(t - t0) + B * math.sin(t - t0) + yp(t), -A * math.sin(t - t0) + B * math.cos(t - t0) + dyp(t)])
+
+
 def methods(ctx):
     base = ["RK4Solver", "RK45CKSolver", "DOPRI45", "RK8713MSolver", "MidpointSolver", "HeunEulerSolver", "SymplecticEulerSolver", "ABAs5o6HSolver", "BABs9o7HSolver",
             "BackwardEuler", "GaussLegendre4", "RadauIIA5", "CrankNicolson"]
@@ -207,14 +219,16 @@ def run(ctx):
                 tf = t0 + direction * span
                 dt = rng.choice([0.05, 0.1, 0.2])
                 rich = name.startswith("Richardson")
-                inp = dict(kind="dense", method=name, history=history, t0=t0, tf=tf, dt=dt)
+                forced = rng.random() < 0.4
+                prhs, pexact = (rhs_forced, exact_forced) if forced else (rhs, exact)
+                inp = dict(kind="dense", method=name, history=history, t0=t0, tf=tf, dt=dt, problem="forced" if forced else "autonomous")
                 fault = dict(n=0, at=None)
 
                 def f(t, y, fault=fault):
                     fault["n"] += 1
                     if fault["at"] is not None and fault["n"] >= fault["at"]:
                         raise Injected("injected")
-                    return rhs(t, y)
+                    return prhs(t, y)
                 # (in the history "against-span-event" the system is configured for the opposite span and the calls name the target)
                 span_cfg = (t0, tf) if history != "against-span-event" else (t0, 2 * t0 - tf)
                 o = de.OdeSystem(f, y0=np.array([1.0, 0.0]), t=span_cfg, dt=dt, dense_output=True, rtol=1e-8, atol=1e-10)
@@ -248,7 +262,7 @@ def run(ctx):
                 sol = o.sol
                 t = np.array(o.t)
                 y = np.array(o.y)
-                ex = exact(t0)
+                ex = pexact(t0)
                 st = [float(x) for x in sol.t_eval]
                 pieces = sol.y_interpolants
                 sorted_ok = all(b > a for a, b in zip(st, st[1:]))
@@ -278,7 +292,7 @@ def run(ctx):
                 # end slopes
                 worst = 0.0
                 for pc in pieces:
-                    worst = max(worst, float(np.max(np.abs(pc.m0 - rhs(float(pc.t0), pc.p0)))), float(np.max(np.abs(pc.m1 - rhs(float(pc.t1), pc.p1)))))
+                    worst = max(worst, float(np.max(np.abs(pc.m0 - prhs(float(pc.t0), pc.p0)))), float(np.max(np.abs(pc.m1 - prhs(float(pc.t1), pc.p1)))))
                 ctx.oracle("end-slopes-are-rhs", worst <= 1e-11, dict(inp, worst=worst), key="dense-stale-slope-after-fault" if history == "fault-resumed" else "end-slopes-are-rhs",
                            what="a piece's end slope differs from the right-hand side at its end state by %.2e" % worst)
                 # accuracy between grid points
@@ -286,13 +300,15 @@ def run(ctx):
                 hmax = float(np.max(np.abs(np.diff(t))))
                 tm = 0.5 * (t[:-1] + t[1:])
                 mid_err = float(np.max(np.abs(np.array([sol(x) for x in tm]) - np.array([ex(x) for x in tm]))))
-                bound = 8 * hmax ** 4 / 384 + 20 * grid_err + 1e-12
+                m4 = 4.1 if forced else 1.1      # max of the fourth derivative of the test problem's solution (forced: homogeneous part + 81 * 0.0375)
+                bound = 8 * m4 * hmax ** 4 / 384 + 20 * grid_err + 1e-12
                 ctx.oracle("interpolation-error-O(h^4)", mid_err <= bound, dict(inp, mid_err=mid_err, bound=bound, hmax=hmax, grid_err=grid_err),
                            what="error between grid points %.2e exceeds the cubic-Hermite bound %.2e (h=%.3g, grid error %.1e)" % (mid_err, bound, hmax, grid_err))
                 if len(pieces) >= 4:
                     ctx.nontrivial((name, history, direction, t0, dt))
                 ctx.count("method:" + name)
                 ctx.count("history:%s:%s" % (history, "bwd" if backward else "fwd"))
+                ctx.count("problem:" + ("forced" if forced else "autonomous"))
                 ctx.sample(dict(inp, pieces=len(pieces)), limit=4)
     fault_in_retry(ctx, rng)
     outs = ctx.driver(lines)
